@@ -75,7 +75,7 @@ theorem valuesOf_err_unfiltered (l : List (Option SwComp)) (m : ErrMask) (h : va
   | nil => simp [valuesOf] at h
   | cons x xs ih =>
     cases x with
-    | none => simp [valuesOf] at h
+    | none => simp [valuesOf] at h; subst h; decide
     | some sc =>
       simp only [valuesOf] at h
       rcases comp_validate_cases sc with h' | ⟨m', h'⟩
